@@ -49,7 +49,7 @@ var c17lits = []struct {
 }{
 	{"int", 42}, {"float", 2.5}, {"inf", math.Inf(1)}, {"nan", math.NaN()}, {"true", true}, {"null", nil}, {"empty", ""}, {"string", "text"},
 	{"newline", "a\nb"}, {"newline-decl", "x\nfunc (c *Gontainer) Extra() int { return 1 }"}, {"cr", "a\rb"}, {"comment-end", "a */ b"}, {"comment-start", "// x"},
-	{"backtick", "a`b"}, {"nul", "a\x00b"}, {"unicode", "é😀"}, {"quote", `say "hi"`}, {"pct", "100%%"}, {"ref", "%pInt%\n%pStr%"}, {"fn", `%env("A", "d")%`},
+	{"backtick", "a`b"}, {"nul", "a\x00b"}, {"unicode", "é😀"}, {"quote", `say "hi"`}, {"pct", "100%%"}, {"ref", "%pInt%\n%pStr%"}, {"fn", `%env("A", "d")%`}, {"fn-comment", `%env("A") // x)%`}, {"fn-comment-multi", `a%envInt("A", 1) /* x */%b`}, {"fn-two-calls", `%env("A")("B")%`}, {"fn-binary", `%env("A") + env("B")%`},
 }
 
 func init() {
@@ -184,6 +184,15 @@ func init() {
 							w.Case(id, func(c *C) {
 								cfg := &Cfg{Meta: stdMeta()}
 								cfg.Meta.DefaultMustGetter = tri(dm)
+								// meta names vary with the row so that every set/unset combination occurs
+								switch (g + must + dm) % 4 {
+								case 1:
+									cfg.Meta.ContainerType = P("App")
+								case 2:
+									cfg.Meta.ContainerConstructor = P("Build")
+								case 3:
+									cfg.Meta.ContainerType, cfg.Meta.ContainerConstructor = P("myBox"), P("makeBox")
+								}
 								s := Service{Name: "sut", Constructor: P("pk.New"), MustGetter: tri(must)}
 								if ty.yaml != "" {
 									s.Type = P(ty.yaml)
